@@ -57,6 +57,33 @@ theorem pp_containsCall (ρ : String → Option Word) (ps imp : List String) :
     · rw [pp_containsCall ρ ps imp l hp.1 h]; rfl
     · rw [pp_containsCall ρ ps imp r hp.2 h]; simp
 
+/-- The value of a call is an integer. -/
+theorem eval_call_int (xc : X.Ctx) (fuel : Nat) (g : String) (args : List X.Expr) (σ σ' : X.St) (r : ArrRef)
+    (h : X.eval fuel xc (.call g args) σ = .ok (.arr r) σ') : False := by
+  cases fuel with
+  | zero => unfold X.eval at h; simp at h
+  | succ f =>
+    unfold X.eval at h
+    cases ht : X.tick xc σ with
+    | none => rw [ht] at h; simp at h
+    | some st =>
+      rw [ht] at h
+      simp only at h
+      split at h
+      · simp at h
+      · split at h
+        · simp at h
+        · split at h
+          · simp at h
+          · obtain ⟨vs, s1, _, h2⟩ := bind_ok_inv _ _ _ _ h
+            obtain ⟨r', s2, _, h4⟩ := bind_ok_inv _ _ _ _ h2
+            split at h4 <;> simp at h4
+        · split at h
+          · simp at h
+          · obtain ⟨vs, s1, _, h2⟩ := bind_ok_inv _ _ _ _ h
+            obtain ⟨r', s2, _, h4⟩ := bind_ok_inv _ _ _ _ h2
+            split at h4 <;> simp at h4
+
 /-- A value of an expression of the class that is not call-free is an integer. -/
 theorem pp_nonpure_int (xc : X.Ctx) (ps imp : List String) (fuel : Nat) (e : X.Expr) (σ σ' : X.St) (r : ArrRef)
     (hp : ppE ps imp e = true) (h : X.eval fuel xc e σ = .ok (.arr r) σ') : pureE e = true := by
@@ -177,5 +204,103 @@ theorem ppArgs_specs : ∀ (es : List X.Expr) (fuel : Nat) (hleaf : ∀ k, k ≤
         exact ⟨fun hc => (hB hc).sim hs0.symm, hload⟩
 
 end
+
+/-! ### Constant actuals (literals and names of constants): their code does not look at the state -/
+
+/-- Literals and names of constants. -/
+def isConstL (ρ : String → Option Word) : X.Expr → Bool
+  | .num _ | .bool _ => true
+  | .name n => (ρ n).isSome
+  | _ => false
+
+theorem constL_pure (ρ : String → Option Word) (e : X.Expr) (h : isConstL ρ e = true) : pureE e = true := by
+  cases e <;> simp [isConstL] at h <;> rfl
+
+theorem constL_const (ρ : String → Option Word) (e : X.Expr) (h : isConstL ρ e = true) :
+    (∃ c, (annotate ρ e).const = some c) ∧ optExpr (annotate ρ e) = annotate ρ e := by
+  cases e with
+  | num x => exact ⟨⟨x, rfl⟩, by simp [annotate, optExpr]⟩
+  | bool b => exact ⟨⟨_, rfl⟩, by simp [annotate, optExpr]⟩
+  | name n =>
+    simp only [isConstL] at h
+    obtain ⟨c, hc⟩ := Option.isSome_iff_exists.mp h
+    exact ⟨⟨c, by simp [annotate, hc]⟩, by simp [annotate, optExpr]⟩
+  | _ => simp [isConstL] at h
+
+/-- The triple of a constant actual holds relative to ANY source state. -/
+theorem execA_constL (K : PCtx) (wf : K.WF) (e : X.Expr) (hc : isConstL K.ρ e = true) (fuel : Nat) (σ0 σ1 : X.St) (v : Val)
+    (hv : ValsOk K.ρ K.xc σ0) (hev : X.eval fuel K.xc e σ0 = .ok v σ1) (σ : X.St) :
+    ∃ w, v = .int w ∧ ExecAt true K (optExpr (annotate K.ρ e)) w σ := by
+  have hp := constL_pure K.ρ e hc
+  obtain ⟨⟨c, hcc⟩, hopt⟩ := constL_const K.ρ e hc
+  have hint : ∃ w, v = .int w := by
+    cases v with
+    | int w => exact ⟨w, rfl⟩
+    | arr r =>
+      exfalso
+      obtain ⟨n, rfl, ht, hrd⟩ := eval_pure_arr K.xc fuel _ σ0 σ1 r hp hev
+      simp only [isConstL] at hc
+      obtain ⟨c', hc'⟩ := Option.isSome_iff_exists.mp hc
+      have := (hv.same (tick_same _ _ _ ht)) n c' hc'
+      rw [hrd] at this
+      simp at this
+  obtain ⟨w, rfl⟩ := hint
+  have hw := annot_sound K.ρ K.xc fuel e σ0 w σ1 c hp hv hev hcc
+  subst hw
+  refine ⟨w, rfl, ?_⟩
+  intro gs code gs' i a b mem hg hat hr hsz hnl hci
+  rw [hopt, genExpr_annot_const _ _ _ _ _ hcc] at hg
+  have st := exec_genConst K wf .A w gs gs' code σ i a b mem σ.io hg hat hr hci
+  exact ⟨b, mem, st, hr, FrmC.refl _ _ _ _⟩
+
+theorem savedOk_noCall (K : PCtx) (mem : Mem) : ∀ (args : List AExpr) (ws : List Word) (sv : Nat),
+    (∀ a ∈ args, containsCall a = false) → SavedOk K mem args ws sv := by
+  intro args
+  induction args with
+  | nil => intro ws sv _; cases ws <;> trivial
+  | cons a rest ih =>
+    intro ws sv h
+    cases ws with
+    | nil => trivial
+    | cons w ws' =>
+      unfold SavedOk
+      rw [if_neg (by rw [h a (by simp)]; simp)]
+      exact ih ws' sv (fun x hx => h x (by simp [hx]))
+
+/-- **Constant actuals**: their values, and their code triples relative to any state. -/
+theorem constLs_specs (K : PCtx) (wf : K.WF) : ∀ (post : List X.Expr) (f : Nat) (s1 s : X.St) (vs : List Val),
+    (∀ e ∈ post, isConstL K.ρ e = true) → ValsOk K.ρ K.xc s1 → X.evalArgs f K.xc post s1 = .ok vs s →
+    SameVars s1 s ∧ post.length = vs.length ∧ (∀ v ∈ vs, okV v = true) ∧
+    ∀ σ, LoadSpec K σ (optArgsOf K.ρ post) (vs.map (wordOf K.abase)) := by
+  intro post
+  induction post with
+  | nil =>
+    intro f s1 s vs _ _ hev
+    cases f with
+    | zero => rw [evalArgs_zero] at hev; simp at hev
+    | succ f =>
+      rw [evalArgs_nil] at hev
+      simp only [Res.ok.injEq] at hev
+      rw [← hev.1, ← hev.2]
+      exact ⟨SameVars.refl _, rfl, fun v hv => by simp at hv, fun _ => trivial⟩
+  | cons e rest ih =>
+    intro f s1 s vs hc hv hev
+    cases f with
+    | zero => rw [evalArgs_zero] at hev; simp at hev
+    | succ f =>
+      obtain ⟨v0, s2, vs', h1, h2, hvs⟩ := evalArgs_cons_inv _ _ _ _ _ _ _ hev
+      subst hvs
+      have hce := hc e (by simp)
+      have hs12 := eval_pure K.xc _ _ _ _ _ (constL_pure K.ρ e hce) h1
+      obtain ⟨hsr, hlen, hokv, hspec⟩ := ih f s2 s vs' (fun x hx => hc x (by simp [hx])) (hv.same hs12) h2
+      refine ⟨hs12.trans hsr, by simp [hlen], ?_, fun σ => ?_⟩
+      · intro x hx
+        rcases List.mem_cons.mp hx with rfl | hx
+        · obtain ⟨w, hw, _⟩ := execA_constL K wf e hce f s1 s2 _ hv h1 s1
+          rw [hw]; rfl
+        · exact hokv x hx
+      · obtain ⟨w, hw, hA⟩ := execA_constL K wf e hce f s1 s2 v0 hv h1 σ
+        simp only [optArgsOf, List.map_cons, LoadSpec]
+        refine ⟨fun _ => by rw [hw]; exact hA, hspec σ⟩
 
 end Hex.C01s
